@@ -68,6 +68,8 @@ def sym(s):
 class Sym:
     """symbolic sums over the weight list `beta` split at `index`"""
 
+    W = 'beta'                            # source text of the weight list in split()
+
     def __init__(self, fi, defs, extra=None):
         self.fi = fi
         self.defs = defs                  # local name -> defining expression (last before use)
@@ -90,12 +92,12 @@ class Sym:
             return sym('D')
         if t in ('degree // 2', 'degree / 2'):
             return sym('H')
-        if t == 'beta[index]':
+        if t == self.W + '[index]':
             return sym('b')
         if t == 'cum[index - 1]':
             cum = self.defs.get('cum')
-            if cum is None or ntext(cum) not in ('np.cumsum(beta)', 'numpy.cumsum(beta)'):
-                raise AnalysisError('R33: `cum` is not np.cumsum(beta)')
+            if cum is None or ntext(cum) not in ('np.cumsum(%s)' % self.W, 'numpy.cumsum(%s)' % self.W):
+                raise AnalysisError('R33: `cum` is not np.cumsum(<weights>)')
             return sym('P')
         if t == 'cum[index]':
             return sym('P') + sym('b')
@@ -113,7 +115,7 @@ class Sym:
         """symbolic sum of a list-valued expression"""
         if depth > 8:
             raise AnalysisError('R33: definition chain too deep')
-        if isinstance(e, ast.Name) and e.id == 'beta':
+        if ntext(e) == self.W:
             return sym('D')
         if isinstance(e, ast.Name) and e.id in self.defs:
             return self.listsum(self.defs[e.id], depth + 1)
@@ -134,7 +136,7 @@ class Sym:
                         and len(b.elts) == 1 and ntext(b.elts[0]) == ntext(t.left):
                     return self.value(t.left)
             raise AnalysisError('R33: conditional list `%s` not interpreted' % ntext(e)[:50])
-        if isinstance(e, ast.Subscript) and isinstance(e.value, ast.Name) and e.value.id == 'beta' and \
+        if isinstance(e, ast.Subscript) and ntext(e.value) == self.W and \
                 isinstance(e.slice, ast.Slice) and e.slice.step is None:
             lo, hi = e.slice.lower, e.slice.upper
             lo_t = ntext(lo) if lo is not None else None
@@ -275,11 +277,14 @@ def run(repo):
         _ = pad_known_pos
 
     # ------------------------------------------------------------------ (b)
-    if not any(isinstance(n, ast.Assign) and ntext(n.targets[0]) == 'degree' and ntext(n.value) == 'sum(beta)'
-               for n in walk_no_nested(sp_.node)) or \
-            not any(isinstance(n, ast.Assign) and ntext(n.targets[0]) == 'beta' and ntext(n.value) == 'self.beta'
-                    for n in walk_no_nested(sp_.node)):
-        raise AnalysisError('split: beta = self.beta / degree = sum(beta) not found (anchors renamed)')
+    W = None
+    for n in walk_no_nested(sp_.node):
+        if isinstance(n, ast.Assign) and ntext(n.targets[0]) == 'degree' and isinstance(n.value, ast.Call) and \
+                call_name(n.value) == 'sum' and len(n.value.args) == 1:
+            W = ntext(n.value.args[0])
+    if W is None:
+        raise AnalysisError('split: degree = sum(<weights>) not found (anchor renamed)')
+    Sym.W = W
     # the arms of the top-level chain
     chain = None
     for st in body_stmts(sp_):
@@ -369,7 +374,7 @@ def run(repo):
                     'parent' % (test[:40], ntext(call)[:40], ntext(e)[:50], total.text()), call)
         # the dominant-weight arm: the weight left on right[index] must be H
         for st in ast.walk(ast.Module(body=body, type_ignores=[])):
-            if isinstance(st, ast.Assign) and ntext(st.targets[0]) == 'mid' and 'beta[index]' in ntext(st.value) \
+            if isinstance(st, ast.Assign) and ntext(st.targets[0]) == 'mid' and (W + '[index]') in ntext(st.value) \
                     and 'cum' not in ntext(st.value):
                 sy = Sym(sp_, {}, [])
                 left_over = sy.norm(sym('b') - sy.value(st.value))
